@@ -639,3 +639,113 @@ Theorem C08_tie_header_calls :
   Src.HEADER_DUMP_CALLS = SrcTieHeader.dump_calls_model.
 Proof. exact SrcTieHeader.header_from_calls. Qed.
 Print Assumptions C08_tie_header_calls.
+(* ---------- work package fsstack: the compression reader with a STREAMING decompressor ----------
+   (CompLayerS.v).  TOTALITY over an inner stream that may return Err at ANY read or seek (any
+   bytes, any SizesInfo), for any decoder step that respects its buffers; the state after an
+   error; and the ERROR TIMING: which call meets the inner error. *)
+From MLA Require Import CompFailSafe CompFailSafeProofs CompFailSafeToy CompLayerS CompLayerSProofs CompLayerSTotal CompLayerSToy.
+
+Theorem C08_comp_stream_reader_total :
+  forall (BLOCK : N) (dstate : Type) (dinit : dstate) (dstep : dstate -> bytes -> N -> dresult * N * bytes * dstate),
+    DstepBounded dstep ->
+  forall (S : Stream) (Iin : st S -> Prop) (pin : st S -> N) (M : N), Tame S Iin pin M -> 0 < BLOCK ->
+  forall (si : sizes_info) (P0 : N) (c : sreader dstate S) (n : N), IcompS BLOCK dstate S Iin si P0 c ->
+    match sread BLOCK dstate dinit dstep S c n with
+    | (c', Ok d) => IcompS BLOCK dstate S Iin si P0 c' /\ len d <= n /\ s_pos c' = s_pos c + len d /\
+                    (len d <> 0 -> s_pos c' <= si_max BLOCK si)
+    | (c', Err e) => IcompS BLOCK dstate S Iin si P0 c' /\ e <> EFuel /\ s_state c' = SEmpty
+    | (_, Crash _) => False
+    end.
+Proof. exact sread_total. Qed.
+
+Theorem C08_comp_stream_seek_total :
+  forall (BLOCK : N) (dstate : Type) (dinit : dstate) (dstep : dstate -> bytes -> N -> dresult * N * bytes * dstate),
+    DstepBounded dstep ->
+  forall (S : Stream) (Iin : st S -> Prop) (pin : st S -> N) (M : N), Tame S Iin pin M -> 0 < BLOCK ->
+  forall (si : sizes_info) (P0 : N) (c : sreader dstate S) (w : whence),
+    IcompS BLOCK dstate S Iin si P0 c -> sseek_arg_ok dstate S c w ->
+    match sseek BLOCK dstate dinit dstep S c w with
+    | (c', Ok q) => IcompS BLOCK dstate S Iin si P0 c' /\ s_pos c' = q /\ (forall p : N, w = FromStart p -> q = p)
+    | (c', Err e) => IcompS BLOCK dstate S Iin si P0 c' /\ e <> EFuel
+    | (_, Crash _) => False
+    end.
+Proof. exact sseek_total. Qed.
+
+(* after a read that returned Err the reader sits in Empty, inside the invariant, and every
+   later call is total (reads: Ok(0) or WrongReaderState; seeks: an error, or the position for
+   Current(0)); the state does not change any more *)
+Theorem C08_comp_stream_usable_after_error :
+  forall (BLOCK : N) (dstate : Type) (dinit : dstate) (dstep : dstate -> bytes -> N -> dresult * N * bytes * dstate),
+    DstepBounded dstep ->
+  forall (S : Stream) (Iin : st S -> Prop) (pin : st S -> N) (M : N), Tame S Iin pin M -> 0 < BLOCK ->
+  forall (si : sizes_info) (P0 : N) (c : sreader dstate S) (n : N) (e : err) (c' : sreader dstate S),
+    IcompS BLOCK dstate S Iin si P0 c -> sread BLOCK dstate dinit dstep S c n = (c', Err e) ->
+    IcompS BLOCK dstate S Iin si P0 c' /\ s_state c' = SEmpty /\ e <> EFuel /\
+    (forall n' : N, sread BLOCK dstate dinit dstep S c' n' = (c', Ok []) \/
+                    sread BLOCK dstate dinit dstep S c' n' = (c', Err EState)) /\
+    (forall w : whence, sseek_arg_ok dstate S c' w ->
+       match sseek BLOCK dstate dinit dstep S c' w with
+       | (c'', Ok q) => IcompS BLOCK dstate S Iin si P0 c'' /\ c'' = c' /\ w = FromCur 0 /\ q = s_pos c'
+       | (c'', Err e') => IcompS BLOCK dstate S Iin si P0 c'' /\ c'' = c' /\ e' <> EFuel
+       | (_, Crash _) => False
+       end).
+Proof. exact comp_stream_usable_after_error. Qed.
+
+(* ERROR TIMING, over ANY inner stream S (no hypothesis on it).  The decompressor is live on a
+   complete stream c, having consumed cin and emitted cout; X = cin ++ pending is what it has
+   pulled from the inner layer.
+   (a) if D X is longer than cout, a read with a non-empty buffer succeeds with a non-empty run
+       of the next bytes of D X and does NOT touch the inner stream (a read returning bytes
+       entirely decoded from input pulled before the failing chunk succeeds); *)
+Theorem C08_comp_stream_read_of_pulled_input_succeeds :
+  forall (dstate : Type) (dinit : dstate) (dstep : dstate -> bytes -> N -> dresult * N * bytes * dstate)
+         (D : bytes -> bytes) (fin : bytes -> bool), DecoderLaws dinit dstep D fin ->
+  forall (S0 : Stream) (fuel : nat) (d : sdecomp dstate S0) (c cin cout : bytes) (n : N),
+    live dstate dinit dstep fin S0 d c cin cout -> 0 < n ->
+    len cout < len (D (cin ++ pending dstate S0 d)) ->
+    exists (d' : sdecomp dstate S0) (out : bytes),
+      sd_read dstate dstep S0 (Datatypes.S fuel) d n = (d', Ok out) /\ out <> [] /\ len out <= n /\
+      prefix (cout ++ out) (D (cin ++ pending dstate S0 d)) /\
+      sd_in d' = sd_in d /\ sd_lim d' = sd_lim d /\ sd_bsz d' = sd_bsz d /\ buf_ok dstate S0 d' /\
+      after_read dstate dinit dstep D fin S0 d c cin cout d' out.
+Proof. exact sd_read_pending. Qed.
+(* (b) if everything decodable from X has been delivered and c is not complete, the call issues
+       ONE inner read of min(refill_want, Take limit) bytes, and an inner error at that read is
+       the error of the call (the compression reader then goes to Empty: C08_comp_stream_reader_total) *)
+Theorem C08_comp_stream_starved_read_meets_inner_error :
+  forall (dstate : Type) (dinit : dstate) (dstep : dstate -> bytes -> N -> dresult * N * bytes * dstate)
+         (D : bytes -> bytes) (fin : bytes -> bool), DecoderLaws dinit dstep D fin ->
+  forall (S0 : Stream) (fuel : nat) (d : sdecomp dstate S0) (c cin cout : bytes) (n : N) (i' : st S0) (e : err),
+    live dstate dinit dstep fin S0 d c cin cout -> 0 < n ->
+    D (cin ++ pending dstate S0 d) = cout -> len (cin ++ pending dstate S0 d) < len c -> 0 < sd_lim d ->
+    rd S0 (sd_in d) (N.min (refill_want dstate S0 d) (sd_lim d)) = (i', Err e) ->
+    exists d' : sdecomp dstate S0, sd_read dstate dstep S0 (Datatypes.S fuel) d n = (d', Err e) /\ sd_in d' = i'.
+Proof. exact sd_read_starved_err. Qed.
+
+(* non-vacuity: the toy decoder is bounded and lawful; over an inner stream whose reads fail
+   from offset 12 on, the seek that creates the decompressor of the second block succeeds, the
+   first read (which needs the block's bytes) returns the inner error, the reader is Empty and
+   later calls return WrongReaderState *)
+Example C08_comp_stream_example :
+  DstepBounded tstep /\ DecoderLaws tinit tstep tD tfin /\
+  (let S := FailFrom sx_wire 12 in
+   let T := CompReaderS 8 tstate tinit tstep S in
+   let c0 := mkS (SReady (0 : st S)) (Some (mkSI [9; 9; 5] 4)) 0 in
+   match sk T c0 (FromStart 8) with
+   | (c1, Ok 8) =>
+     match rd T c1 4 with
+     | (c2, Err EWrongTag) =>
+       s_state c2 = SEmpty /\ fst (rd T c2 4) = c2 /\ snd (rd T c2 4) = Err EState /\
+       snd (sk T c2 (FromStart 0)) = Err EState
+     | _ => False
+     end
+   | _ => False
+   end).
+Proof. exact (conj toy_bounded (conj toy_laws comp_stream_error_timing_toy)). Qed.
+
+Print Assumptions C08_comp_stream_reader_total.
+Print Assumptions C08_comp_stream_seek_total.
+Print Assumptions C08_comp_stream_usable_after_error.
+Print Assumptions C08_comp_stream_read_of_pulled_input_succeeds.
+Print Assumptions C08_comp_stream_starved_read_meets_inner_error.
+Print Assumptions C08_comp_stream_example.
